@@ -30,19 +30,20 @@ UUID_RE = re.compile(r"[0-9a-f]{8}-[0-9a-f]{4}-[0-9a-f]{4}-[0-9a-f]{4}-[0-9a-f]{
 
 PROFILES = {
     # everything the parse leg can carry: plain identifiers, plain qualifiers
-    "base": dict(qualifiers="plain", identifiers="full", biotypes="same"),
+    "base": dict(qualifiers="plain", identifiers="full", biotypes="same", key_pool=["shared_key", "remark"]),
     # adversarial VALUES over the full alphabet (comma, quotes included): export clauses only
     "adv": dict(qualifiers="adv", identifiers="adv", biotypes="same"),
     # adversarial values without comma / double quote: export + parse + re-export
     "advsafe": dict(qualifiers="adv", identifiers="adv", biotypes="same", exclude_values=',"'),
-    # adversarial KEYS (F-C11d on the parse leg)
+    # adversarial KEYS: escaped keys must come back unescaped and re-export must be a fixed point (was F-C11d)
     "advkey": dict(qualifiers="advkey", identifiers="full", biotypes="same", exclude_values=',"'),
-    # transcript biotype differing from the gene's (F-C11a)
+    # transcript biotype differing from the gene's must survive (was F-C11a)
     "biotype": dict(qualifiers="plain", identifiers="full", biotypes="differ"),
-    # keys that merely START with a reserved BioCantor key (F-C11b)
+    # keys that merely START with a reserved BioCantor key must survive (was F-C11b)
+    "biomix": dict(qualifiers="plain", identifiers="full", biotypes="mix"),
     "prefixkey": dict(qualifiers="plain", identifiers="full", biotypes="same",
                       key_pool=["identity", "product_source", "named_by", "idx", "parental", "gene_identity"]),
-    # missing identifiers / biotypes: the parser's documented fall-backs
+    # missing identifiers / biotypes: the parser's documented fall-backs; gene_type None must survive (was F-C11f)
     "sparse": dict(qualifiers="plain", identifiers="sparse", biotypes="same"),
     "notype": dict(qualifiers="plain", identifiers="full", biotypes="none"),
     # feature collections next to genes: export clauses only (their re-parse is not claimed)
@@ -51,7 +52,7 @@ PROFILES = {
     "dup": dict(qualifiers="plain", identifiers="full", biotypes="same"),
 }
 #: profiles on which the re-parse / re-export legs are claimed
-PARSE_PROFILES = {"base", "advsafe", "advkey", "biotype", "prefixkey", "sparse", "notype", "dup"}
+PARSE_PROFILES = {"base", "advsafe", "advkey", "biotype", "biomix", "prefixkey", "sparse", "notype", "dup"}
 
 
 def make_collection(seed, profile):
@@ -356,8 +357,7 @@ def check_export(text, coll, off, fasta, seq, chunk_id=None):
             viol.append("export.sequence-region-header")
         body = [x for x in fa if x != ""]
         if body and body[0] != ">" + name and chunk_id is not None and body[0] == ">" + chunk_id:
-            viol.append("export.fasta-header:chunk-id-instead-of-seqid")
-            body[0] = ">" + name
+            viol.append("export.fasta-header:chunk-id-instead-of-seqid")      # diagnosis only (regression of 5f9d162)
         if not body or body[0] != ">" + name or "".join(body[1:]) != seq or any(x.startswith(">") for x in body[1:]):
             viol.append("export.fasta-section")
     elif headers:
@@ -613,7 +613,9 @@ def run_coll(args):
     parent = G.make_parent(kind, coll["sequence_name"], coll["genome_len"], chunk)
     ac = G.build(coll, parent)
     chrom_rel = mode == "chrom"
+    before = repr(ac.to_dict())
     text = export([ac], fasta, chrom_rel)          # documented refusals propagate as `err <Class>`
+    mutated = repr(ac.to_dict()) != before         # operands unchanged by the export (regression of F-C10b)
     off = chunk[0] if (chunk and not chrom_rel) else 0
     seq = None
     if fasta:
@@ -625,11 +627,8 @@ def run_coll(args):
         return "ok clean n/a-frameshift-in-chunk-mode"
     chunk_id = f"{coll['sequence_name']}:{chunk[0]}-{chunk[1]}" if chunk else None
     viol, rows = check_export(text, coll, off, fasta, seq, chunk_id)
-    if "export.fasta-header:chunk-id-instead-of-seqid" in viol:
-        # F-C11e: the FASTA record of a chunk export is named after the chunk, not after column 1.  The clause is
-        # reported; the remaining legs continue on the text with that one header line corrected, so that the rest of
-        # the property is still checked in this mode.
-        text = text.replace("\n>" + chunk_id + "\n", "\n>" + coll["sequence_name"] + "\n", 1)
+    if mutated:
+        viol.append("export.mutates-source-qualifiers")
     if profile in PARSE_PROFILES and rows is not None:
         viol += parse_legs(text, coll, off, fasta, seq, chrom_rel, [str(g.guid) for g in ac.genes])
     viol = sorted(set(viol))
@@ -655,7 +654,7 @@ def parse_legs(text, coll, off, fasta, seq, chrom_rel, gene_ids):
     viol += compare_parsed(ac2.to_dict(), normalise_source(coll, off), coll)
     if viol:
         # (d) presupposes (c): a re-export of wrongly parsed models differs as a CONSEQUENCE; it is not reported as a
-        # second violation (keeps the matchers of the known findings narrow)
+        # second violation
         return viol
     # (d) re-export.  First round: equal to the export of the normalised source (= the file itself whenever every
     # identifier is present) up to the GUID-derived IDs; from then on byte-identical (up to the order of ties).
